@@ -192,6 +192,7 @@ def lean_audit(pid, thorough=False):
         elif ok and not scan:
             res['discharged'] += 1
     res['axioms'] = {t: sorted(a) for t, a in seen.items()}
+    tie_audit(ob.get('tie', []), res, ok and not scan)
     if thorough and ok:
         try:
             lock = _lean_lock()
@@ -206,6 +207,53 @@ def lean_audit(pid, thorough=False):
         except Exception as e:  # pragma: no cover
             res['leanchecker'] = f'not run: {e}'
     return res
+
+
+def tie_audit(tie, res, rest_ok):
+    """The translator tie: regenerate lean/Sgz/Generated/Source.lean from the repository's source as it is now, and check the
+    listed theorems of lean/Sgz/Tie/Source.lean against it (each says: the generated definition is the model's expression).
+    One critical section, so that concurrent checks on different trees do not see each other's generated file."""
+    if not tie:
+        return
+    from . import translate
+    res['obligations'] += len(tie)
+    res['theorems'] = list(res['theorems']) + list(tie)
+    lock = _lean_lock()
+    try:
+        _, errors = translate.generate()
+        res['translator'] = {'definitions': len(translate.SPEC), 'errors': errors}
+        b = subprocess.run(['lake', 'build', 'Sgz.Generated.Source', 'Sgz.Model.Loader', 'Sgz.Model.Reader'], cwd=LEAN_DIR,
+                           stdout=subprocess.PIPE, stderr=subprocess.STDOUT, text=True, timeout=1800)
+        src = open(os.path.join(LEAN_DIR, 'Sgz', 'Tie', 'Source.lean')).read()
+        src += '\n' + ''.join(f'#print axioms {t}\n' for t in tie)
+        with tempfile.NamedTemporaryFile('w', suffix='.lean', dir=LEAN_DIR, delete=False) as f:
+            f.write(src)
+            tmpf = f.name
+        try:
+            p = subprocess.run(['lake', 'env', 'lean', tmpf], cwd=LEAN_DIR, stdout=subprocess.PIPE,
+                               stderr=subprocess.STDOUT, text=True, timeout=1800)
+        finally:
+            os.unlink(tmpf)
+    finally:
+        lock.close()
+    out = p.stdout
+    seen = {}
+    for m in re.finditer(r"'([^']+)' depends on axioms: \[([^\]]*)\]", out, flags=re.S):
+        seen[m.group(1)] = set(a.strip() for a in m.group(2).replace('\n', ' ').split(',') if a.strip())
+    for m in re.finditer(r"'([^']+)' does not depend on any axioms", out):
+        seen[m.group(1)] = set()
+    for t in tie:
+        if b.returncode != 0:
+            res['problems'].append((t, 'generated definitions do not compile: ' + b.stdout[-600:]))
+        elif t not in seen:
+            res['problems'].append((t, 'tie theorem missing: ' + out[-600:]))
+        elif not seen[t] <= ALLOWED_AXIOMS:
+            why = 'the source expression is no longer the model\'s (tie does not check)' if 'sorryAx' in seen[t] \
+                else f'foreign axioms {sorted(seen[t] - ALLOWED_AXIOMS)}'
+            res['problems'].append((t, why))
+        elif rest_ok:
+            res['discharged'] += 1
+    res.setdefault('axioms', {}).update({t: sorted(a) for t, a in seen.items() if t in tie})
 
 
 class Model:
